@@ -381,6 +381,9 @@ def run(ctx: Check):
     valid = _corpus() + valid
     lockstep(ctx, "circular-allocator", "C27", valid, impl, monitor, more_cases, nontrivial, procs=procs)
     lockstep(ctx, "circular-allocator-malformed", "C27", malformed, impl, None, None, nontrivial, procs=procs)
+    two = gen_cases2(ctx)
+    lockstep(ctx, "circular-allocator-two-callers", "C27", two, impl2, monitor2, more_cases2,
+             lambda c, o: any("-" not in _kv(l)["a2"] or "-" not in _kv(l)["f2"] for l in c.ops), procs=1)
     ctx.count("configurations", len({(c.desc["n"], c.desc["ma"], c.desc["mf"], c.desc["val"]) for c in valid}))
     if ctx.thorough:
         hist, single = exhaustive_cases(ctx)
@@ -394,6 +397,135 @@ def run(ctx: Check):
              "covered by the malformed stream for model/implementation agreement only.")
 
 
+# ------------------------------------------------------------------ two callers per method
+_sims2: dict[tuple, tuple] = {}
+
+
+def _sim2(n, ma, mf, val):
+    """real allocator with alloc and free each called by two independent transactions; also the static priority
+    among the two callers of each method, read off the real scheduler (both attempt while the method is ready)"""
+    k = (n, ma, mf, val)
+    if k not in _sims2:
+        from transactron.lib.allocators import CircularAllocator
+
+        from ..alloc2 import make_two
+
+        def mk():
+            d = CircularAllocator(n, ma, mf, with_validate_arguments=bool(val))
+            return make_two(d, {"alloc": d.alloc, "free": d.free}, {"clear": d.clear})
+
+        sim = CompSim(mk)
+        tr = sim.run([{"alloc[0]": 1, "alloc[1]": 1}, {"free[0]": 1, "free[1]": 1}])
+        pa = 1 if (tr[0][("alloc", 0)] is None and tr[0][("alloc", 1)] is not None) else 0
+        pf = 1 if (tr[1][("free", 0)] is None and tr[1][("free", 1)] is not None) else 0
+        _sims2[k] = (sim, [pa, 1 - pa], [pf, 1 - pf])
+    return _sims2[k]
+
+
+def impl2(case: Case) -> list[str]:
+    """two-caller run projected onto the single-caller observation format: per method the result of the caller
+    that executed; `dbl=<methods>` is appended when both callers of an exclusive method executed"""
+    from ..alloc2 import executed, pair
+
+    d = case.desc
+    n, ma, mf, val = d["n"], d["ma"], d["mf"], d["val"]
+    sim = _sim2(n, ma, mf, val)[0]
+    idw = (n - 1).bit_length()
+    ops = []
+    for line in case.ops:
+        o = _kv(line)
+        a2, f2 = pair(o["a2"]), pair(o["f2"])
+        ops.append({("alloc", 0): a2[0], ("alloc", 1): a2[1], ("free", 0): f2[0], ("free", 1): f2[1],
+                    "clear": 0 if o["c"] == "1" else None})
+    tr = sim.run(ops, extra=lambda w: [w.inner.start_idx, w.inner.end_idx, w.inner.allocated, w.inner.alloc.ready, w.inner.free.ready])
+    out = ["ok"]
+    for r in tr:
+        e = r["_extra"]
+        (a, da), (f, df) = executed(r, "alloc"), executed(r, "free")
+        dbl = ",".join(x for x, y in (("alloc", da), ("free", df)) if y)
+        out.append(
+            f"a={_decode(a, ma, idw)} f={_decode(f, mf, idw)} c={0 if r[('clear',)] is None else 1} "
+            f"s={e[0]} e={e[1]} cnt={e[2]} rdy={e[3]}{e[4]}" + (f" dbl={dbl}" if dbl else "")
+        )
+    return out
+
+
+def monitor2(case: Case, out: list[str]):
+    """at most one caller of an exclusive method executes per cycle; the property holds on the executed calls"""
+    for k, o in enumerate(out[1:]):
+        if " dbl=" in o:
+            return (f"cycle {k}: both callers of the exclusive method(s) {o.split('dbl=')[1]} executed in one cycle "
+                    f"(attempts {case.ops[k]}): the same identifiers are handed to / taken from two callers")
+    return monitor(case, out)
+
+
+def _mk2(n, ma, mf, val, ops2, tag) -> Case:
+    """ops2: ((a0, a1), (f0, f1), clear); the effective single-caller attempt (what the scheduler serves) is
+    computed with a reference count of allocated identifiers and the probed priorities"""
+    from ..alloc2 import first_of, fmt_pair
+
+    _, oa, of = _sim2(n, ma, mf, val)
+    cnt = 0
+    lines = []
+    fmt = lambda v: "-" if v is None else str(v)  # noqa: E731
+    for a2, f2, c in ops2:
+        a = first_of(oa, a2, lambda v: cnt != n and (not (val and ma > 1) or cnt + v <= n))
+        f = first_of(of, f2, lambda v: cnt != 0 and (not (val and mf > 1) or v <= cnt))
+        lines.append(f"cyc a={fmt(a)} f={fmt(f)} c={c} a2={fmt_pair(a2)} f2={fmt_pair(f2)}")
+        a_run = a is not None and cnt != n and cnt + a <= n
+        f_run = f is not None and cnt != 0 and f <= cnt
+        cnt = 0 if c else cnt + (a if a_run else 0) - (f if f_run else 0)
+    desc = {"component": "CircularAllocator", "n": n, "ma": ma, "mf": mf, "val": val, "callers": 2}
+    return Case(f"cfg n={n} ma={ma} mf={mf} val={val}", lines, desc, tag)
+
+
+def _stream2(rng, n, ma, mf, val, length):
+    """two callers per method attempting independently; counts legal for the allocator's state (with effective
+    validation some ask for too much).  Both callers often attempt together."""
+    cnt = 0
+    ops = []
+    _, oa, of = _sim2(n, ma, mf, val)
+    from ..alloc2 import first_of
+
+    for _ in range(length):
+        def count(mx, room, validated):
+            if rng.random() < 0.45:
+                return None
+            if validated and rng.random() < 0.25:
+                return rng.randint(0, mx)
+            return rng.randint(0, min(mx, room)) if rng.random() < 0.6 else min(mx, room)
+
+        a2 = [count(ma, n - cnt, val and ma > 1) for _ in range(2)]
+        f2 = [count(mf, cnt, val and mf > 1) for _ in range(2)]
+        c = int(rng.random() < 0.02)
+        ops.append((a2, f2, c))
+        a = first_of(oa, a2, lambda v: cnt != n and (not (val and ma > 1) or cnt + v <= n))
+        f = first_of(of, f2, lambda v: cnt != 0 and (not (val and mf > 1) or v <= cnt))
+        a_run = a is not None and cnt != n and cnt + a <= n
+        f_run = f is not None and cnt != 0 and f <= cnt
+        cnt = 0 if c else cnt + (a if a_run else 0) - (f if f_run else 0)
+    return ops
+
+
+def gen_cases2(ctx: Check) -> list[Case]:
+    rng = ctx.rng("two-callers")
+    cfgs = ctx.pick([(1, 1, 1, 1), (3, 2, 2, 1), (4, 2, 3, 0), (5, 3, 2, 1), (8, 4, 4, 1), (7, 1, 1, 0)],
+                    [(n, ma, mf, v) for n in (1, 2, 3, 4, 5, 7, 8, 9) for ma, mf in ((1, 1), (2, 3), (n, 2)) for v in (1, 0)])
+    out = []
+    for n, ma, mf, val in cfgs:
+        both = [((min(ma, 1), min(ma, 1)), (None, None), 0)] * 2 + [((None, None), (min(mf, 1), min(mf, 1)), 0)] * 3
+        out.append(_mk2(n, ma, mf, val, both, "directed"))
+        for _ in range(ctx.pick(2, 4)):
+            out.append(_mk2(n, ma, mf, val, _stream2(rng, n, ma, mf, val, ctx.pick(80, 300)), "random"))
+    return out
+
+
+def more_cases2(case: Case, rng):
+    d = case.desc
+    for _ in range(20):
+        yield _mk2(d["n"], d["ma"], d["mf"], d["val"], _stream2(rng, d["n"], d["ma"], d["mf"], d["val"], 100), "search")
+
+
 def replay_witness(w: dict):
     """witness of a (proposed/known) finding: {"cfg":..., "ops":[...], "desc":{...}}; desc.strict=true also
     judges counts above max_alloc/max_free that still fit the argument signal"""
@@ -404,4 +536,6 @@ def replay_witness(w: dict):
 def replay(ctx: Check, body: dict):
     from ..lockstep import replay_case
 
+    if body.get("desc", {}).get("callers") == 2:
+        return replay_case(body, impl2, monitor2)
     return replay_case(body, impl, monitor)
